@@ -87,6 +87,103 @@ Definition ehp (eu : enduse) (avail etau : list Q) (n m cp : Q) (tprod : list Q)
       end
   end.
 
+(* ------------------------------------------------------------------------------------------------ *)
+(* conversion-efficiency and reinjection-temperature correlations of the four power-plant types
+   (SurfacePlant{SubcriticalORC,SupercriticalORC,SingleFlash,DoubleFlash}.Calculate + SurfacePlant.reinjection_temperature):
+   two ambient-temperature brackets (< 15 degC, >= 15 degC), in each a lower-limit and an upper-limit quadratic in the
+   plant entering temperature, blended linearly in the ambient temperature. *)
+Inductive plant : Type := P_SUBORC | P_SUPORC | P_SFLASH | P_DFLASH.
+
+(* PlantType.int_value -> plant *)
+Definition plant_of_code (c : Z) : option plant :=
+  match c with 1%Z => Some P_SUBORC | 2%Z => Some P_SUPORC | 3%Z => Some P_SFLASH | 4%Z => Some P_DFLASH | _ => None end.
+
+Definition poly : Type := (Q * Q * Q)%type.                 (* (c2, c1, c0) *)
+Definition poly2 (c : poly) (T : Q) : Q := let '(c2, c1, c0) := c in c2 * (T * T) + c1 * T + c0.
+
+Record corr : Type := mk_corr { eta_ll : poly; eta_ul : poly; rj_ll : poly; rj_ul : poly }.
+
+(* the coefficient tables as written in the four Calculate methods: (C21,C11,C01) (D21,D11,D01) (C22,C12,C02) (D22,D12,D02) *)
+Definition coeffs (p : plant) (low : bool) : corr :=
+  match p, low with
+  | P_SUBORC, true  => mk_corr (0, 2746 # 1000000, - (83806 # 1000000)) (0, 2713 # 1000000, - (91841 # 1000000))
+                               (0, 894 # 10000, 556 # 10) (0, 894 # 10000, 626 # 10)
+  | P_SUBORC, false => mk_corr (0, 2713 # 1000000, - (91841 # 1000000)) (0, 2676 # 1000000, - (1012 # 10000))
+                               (0, 894 # 10000, 626 # 10) (0, 894 # 10000, 696 # 10)
+  | P_SUPORC, true  => mk_corr (- (155 # 10000000), 7604 # 1000000, - (378 # 1000))
+                               (- (1499 # 100000000), 74268 # 10000000, - (37915 # 100000))
+                               (0, 2 # 100, 4926 # 100) (0, 2 # 100, 5626 # 100)
+  | P_SUPORC, false => mk_corr (- (1499 # 100000000), 74268 # 10000000, - (37915 # 100000))
+                               (- (155 # 10000000), 755136 # 100000000, - (4041 # 10000))
+                               (0, 2 # 100, 5626 # 100) (0, 2 # 100, 6326 # 100)
+  | P_SFLASH, true  => mk_corr (- (427318 # 1000000000000), 865629 # 1000000000, 178931 # 1000000)
+                               (- (585412 # 1000000000000), 968352 # 1000000000, 158056 # 1000000)
+                               (- (111519 # 100000000), 779126 # 1000000, - (102242 # 10000))
+                               (- (110232 # 100000000), 783893 # 1000000, - (517039 # 100000))
+  | P_SFLASH, false => mk_corr (- (585412 # 1000000000000), 968352 # 1000000000, 158056 # 1000000)
+                               (- (778996 # 1000000000000), 109230 # 100000000, 133708 # 1000000)
+                               (- (110232 # 100000000), 783893 # 1000000, - (517039 # 100000))
+                               (- (108914 # 100000000), 788562 # 1000000, - (189707 # 1000000))
+  | P_DFLASH, true  => mk_corr (- (12 # 10000000), 122731 # 100000000, 226956 # 1000000)
+                               (- (142165 # 100000000000), 13705 # 10000000, 199847 # 1000000)
+                               (- (770928 # 1000000000), 502466 # 1000000, 522091 # 100000)
+                               (- (769455 # 1000000000), 509406 # 1000000, 116859 # 10000)
+  | P_DFLASH, false => mk_corr (- (142165 # 100000000000), 13705 # 10000000, 199847 # 1000000)
+                               (- (166771 # 100000000000), 153079 # 100000000, 169439 # 1000000)
+                               (- (769455 # 1000000000), 509406 # 1000000, 116859 # 10000)
+                               (- (767751 # 1000000000), 516356 # 1000000, 180798 # 10000)
+  end.
+
+Definition is_low (amb : Q) : bool := Qltb amb 15.                     (* ambient_temperature < 15. *)
+Definition tfraction (amb : Q) : Q := if is_low amb then (amb - 5) / 10 else (amb - 15) / 10.
+Definition blend (tf ll ul : Q) : Q := (1 - tf) * ll + tf * ul.
+
+(* the correlation of one bracket, evaluated at any ambient temperature (used to state continuity) *)
+Definition etau_bracket (p : plant) (low : bool) (amb T : Q) : Q :=
+  let c := coeffs p low in
+  blend (if low then (amb - 5) / 10 else (amb - 15) / 10) (poly2 (eta_ll c) T) (poly2 (eta_ul c) T).
+Definition reinj_bracket (p : plant) (low : bool) (amb T : Q) : Q :=
+  let c := coeffs p low in
+  blend (if low then (amb - 5) / 10 else (amb - 15) / 10) (poly2 (rj_ll c) T) (poly2 (rj_ul c) T).
+
+Definition etau_at (p : plant) (amb T : Q) : Q :=
+  let c := coeffs p (is_low amb) in blend (tfraction amb) (poly2 (eta_ll c) T) (poly2 (eta_ul c) T).
+Definition reinj_at (p : plant) (amb T : Q) : Q :=
+  let c := coeffs p (is_low amb) in blend (tfraction amb) (poly2 (rj_ll c) T) (poly2 (rj_ul c) T).
+
+Definition etau_series (p : plant) (amb : Q) (tpp : list Q) : list Q := map (etau_at p amb) tpp.
+Definition reinj_series (p : plant) (amb : Q) (tpp : list Q) : list Q := map (reinj_at p amb) tpp.
+
+Definition list_min (l : list Q) : option Q :=
+  match l with [] => None | x :: r => Some (fold_left Qmin r x) end.
+
+(* "if np.min(ReinjTemp) < Tinj: Tinj = np.min(ReinjTemp)" *)
+Definition tinj_update (tinj : Q) (reinj : list Q) : option Q :=
+  match list_min reinj with
+  | None => None                                  (* np.min of an empty array: ValueError *)
+  | Some mn => Some (if Qltb mn tinj then mn else tinj)
+  end.
+
+(* power_plant_entering_temperature: the bottoming cycle enters at T_chp_bottom (one value per time step) *)
+Definition tentering (eu : enduse) (ntime : nat) (tchp : Q) (tprod : list Q) : list Q :=
+  match eu with EU_BOT => repeat tchp ntime | _ => tprod end.
+
+(* the power-plant part of Calculate: entering temperature -> correlations -> injection temperature -> production.
+   Availability (a logarithm) stays an input. *)
+Definition power_plant (p : plant) (eu : enduse) (amb : Q) (avail : list Q) (n m cp : Q) (tprod : list Q) (tinj tchp eff chpf : Q)
+  : result (Q * list Q * list Q * ehp_out) :=
+  let tpp := tentering eu (length tprod) tchp tprod in
+  let etau := etau_series p amb tpp in
+  let reinj := reinj_series p amb tpp in
+  match tinj_update tinj reinj with
+  | None => Fail E_VALUE
+  | Some tinj' =>
+      match ehp eu avail etau n m cp tprod tinj' reinj tchp eff chpf with
+      | Ok o => Ok (tinj', etau, reinj, o)
+      | Fail c => Fail c
+      end
+  end.
+
 (* NetElectricityProduced = ElectricityProduced - PumpingPower *)
 Definition net_series (el pump : list Q) : option (list Q) :=
   if same_len el pump then Some (map2 Qminus el pump) else None.
@@ -231,6 +328,16 @@ Definition check_chiller (tol cop eff : Q) (he hp cooling : list Q) : bool :=
 Definition check_bottoming (tol eff n m cp tchp : Q) (tprod hp : list Q) : bool :=
   all_close tol (map (fun t => eff * n * m * cp * (t - tchp) / 1000000) tprod) hp.
 
+(* the power-plant part recomputed from the run's inputs: entering temperature, etau, ReinjTemp, injection temperature
+   (the reported one must be a fixed point of the update), electricity, extracted and useful heat *)
+Definition check_power_plant (tol : Q) (p : plant) (eu : enduse) (amb : Q) (avail : list Q) (n m cp : Q) (tprod : list Q)
+           (tinj tchp eff chpf : Q) (tpp el he hp : list Q) : bool :=
+  all_close tol (tentering eu (length tprod) tchp tprod) tpp &&
+  match power_plant p eu amb avail n m cp tprod tinj tchp eff chpf with
+  | Ok (tinj', _, _, o) => close tol tinj' tinj && all_close tol (o_el o) el && all_close tol (o_he o) he && all_close tol (o_hp o) hp
+  | Fail _ => false
+  end.
+
 (* conservation on reported series: heat towards electricity (= Net / FirstLawEfficiency) + useful heat / efficiency
    = heat extracted.  Steps whose reported efficiency is 0 carry no information and are skipped. *)
 Fixpoint conservation_terms (eff : Q) (hp net fle : list Q) : list Q :=
@@ -331,6 +438,35 @@ Definition run_ehp (a : list Q) : res :=
           | Ok o => Vals (o_el o ++ o_he o ++ o_hp o ++ arr_flat (o_hete o))
           | Fail c => Err c
           end
+      end
+  | _ => Err E_ARGS
+  end.
+
+(* reinjection_temperature(model, amb, TenteringPP, Tinj, C01,C11,C21, D01,D11,D21, C02,C12,C22, D02,D12,D22):
+   [amb; tinj; C01; C11; C21; D01; D11; D21; C02; C12; C22; D02; D12; D22] ++ tpp -> [Tinj'] ++ ReinjTemp ++ etau *)
+Definition corr_eval (c : corr) (amb : Q) (tpp : list Q) : list Q * list Q :=
+  (map (fun T => blend (tfraction amb) (poly2 (eta_ll c) T) (poly2 (eta_ul c) T)) tpp,
+   map (fun T => blend (tfraction amb) (poly2 (rj_ll c) T) (poly2 (rj_ul c) T)) tpp).
+
+Definition run_reinj (a : list Q) : res :=
+  match a with
+  | amb :: tinj :: c01 :: c11 :: c21 :: d01 :: d11 :: d21 :: c02 :: c12 :: c22 :: d02 :: d12 :: d22 :: tpp =>
+      let c := mk_corr (c21, c11, c01) (d21, d11, d01) (c22, c12, c02) (d22, d12, d02) in
+      let (etau, reinj) := corr_eval c amb tpp in
+      match tinj_update tinj reinj with
+      | Some t => Vals (t :: reinj ++ etau)
+      | None => Err E_VALUE
+      end
+  | _ => Err E_ARGS
+  end.
+
+(* the plant tables through the same interface: [plant; amb] ++ tpp -> ReinjTemp ++ etau *)
+Definition run_plant_corr (a : list Q) : res :=
+  match a with
+  | pc :: amb :: tpp =>
+      match plant_of_code (qZ pc) with
+      | Some p => Vals (reinj_series p amb tpp ++ etau_series p amb tpp)
+      | None => Err E_ARGS
       end
   | _ => Err E_ARGS
   end.
